@@ -248,7 +248,19 @@ def main():
             with open(vpath, "w") as f:
                 json.dump(vec, f, indent=1)
             if v["kind"] == "overflow":
-                inconclusive.append("%s: arithmetic wrap possible at %s with %s (outside the exact-arithmetic claim)" % (name, v.get("pos"), v["model"]))
+                # machine integers wrap: the native run shows what really happens on this input
+                st2, fails, out = native_replay(hr["spec"]["pkg"], name, vpath)
+                if st2 in ("fail", "panic") and fails:
+                    v = dict(v)
+                    v["label"] = fails[0]
+                    v["info"] = (v.get("info") or []) + ["integer wrap-around at " + str(v.get("pos")), "native failures: " + "; ".join(fails[:5])]
+                    kf = match_known(known, prop, name, v["label"], v["model"], v.get("info"))
+                    if kf:
+                        known_hits.append((kf, name, v, vpath))
+                    else:
+                        violations.append((name, v, vpath))
+                else:
+                    inconclusive.append("%s: arithmetic wrap possible at %s with %s (native run: %s; outside the exact-arithmetic claim)" % (name, v.get("pos"), v["model"], st2))
                 continue
             if key in seen_labels and len(seen_labels) > 0 and i > 3:
                 continue
